@@ -3,7 +3,7 @@
    In the relabelled scene component r of a vector is component sg r of the original (sg 0 = 2, sg 1 = 0, sg 2 = 1) and the
    tensor entry (r, s) is the original entry (sg r, sg s) with relabelled indices. *)
 From Coq Require Import List Arith Lia Field Ring.
-From FV Require Import base.Scalar base.Cplx model.Yee model.YeeExec model.YeeFull proofs.Yee_steps proofs.Yee_perm proofs.Yee_full_props.
+From FV Require Import base.Scalar base.Cplx model.Yee model.YeeExec model.YeeFull proofs.Yee_steps proofs.Yee_perm proofs.Yee_full_props proofs.Yee_lossy_props.
 Import ListNotations.
 Local Open Scope fld_scope.
 
@@ -84,3 +84,129 @@ Section FullPerm.
     apply (stepH_gen_ext K Psc); [cbn [injH Pscene]; apply veqA_refl' | exact A | exact HH].
   Qed.
 End FullPerm.
+
+(* ---- the conductive fully anisotropic tiers ---- *)
+Section LossyPerm.
+  Variable K : Fld.
+  Add Field KFlpp : (Fth K).
+  Variable sc : scene K.
+  Notation P := (@P _). Notation PV := (PV K). Notation Psc := (Pscene K sc).
+  Notation PT := (PT K). Notation sg := sg.
+  Definition PTp (o : option (T9 K * T9 K)) : option (T9 K * T9 K) := match o with Some (T, s) => Some (PT T, PT s) | None => None end.
+  Definition teq (X Y : T9 K) : Prop := forall r s, (r < 3)%nat -> (s < 3)%nat -> forall i j k, X r s i j k = Y r s i j k.
+
+  (* per-cell 3x3 algebra commutes with the relabelling (entries (r, s) with r, s < 3) *)
+  Lemma cof_perm M r s : (r < 3)%nat -> (s < 3)%nat -> forall i j k, cof K (PT M) r s i j k = P (cof K M (sg r) (sg s)) i j k.
+  Proof. intros Hr Hs i j k. destruct r as [|[|[|r]]]; [| | |lia]; (destruct s as [|[|[|s]]]; [| | |lia]); reflexivity. Qed.
+  Lemma det9_perm M i j k : det9 K (PT M) i j k = P (det9 K M) i j k.
+  Proof. unfold det9, cof, Yee_full_perm.PT, Yee_perm.P; cbn [nx3 pv3 Yee_full_perm.sg]. ring. Qed.
+  Lemma m9inv_perm M : teq (m9inv K (PT M)) (PT (m9inv K M)).
+  Proof.
+    intros r s Hr Hs i j k. unfold m9inv. rewrite (cof_perm M s r Hs Hr), det9_perm. reflexivity.
+  Qed.
+  Lemma m9mul_perm X Y X' Y' : teq X' (PT X) -> teq Y' (PT Y) -> teq (m9mul K X' Y') (PT (m9mul K X Y)).
+  Proof.
+    intros HX HY r s Hr Hs i j k. unfold m9mul.
+    rewrite (HX r 0%nat Hr ltac:(lia)), (HX r 1%nat Hr ltac:(lia)), (HX r 2%nat Hr ltac:(lia)),
+            (HY 0%nat s ltac:(lia) Hs), (HY 1%nat s ltac:(lia) Hs), (HY 2%nat s ltac:(lia) Hs).
+    unfold Yee_full_perm.PT, Yee_perm.P; cbn [Yee_full_perm.sg]. ring.
+  Qed.
+  Lemma m9lin_perm a X b Y X' Y' : teq X' (PT X) -> teq Y' (PT Y) -> teq (m9lin K a X' b Y') (PT (m9lin K a X b Y)).
+  Proof. intros HX HY r s Hr Hs i j k. unfold m9lin. rewrite (HX r s Hr Hs), (HY r s Hr Hs). reflexivity. Qed.
+  Lemma m9id_perm : teq (m9id K) (PT (m9id K)).
+  Proof. intros r s Hr Hs i j k. destruct r as [|[|[|r]]]; [| | |lia]; (destruct s as [|[|[|s]]]; [| | |lia]); reflexivity. Qed.
+  Lemma teq_refl X : teq X X. Proof. intros r s _ _ i j k; reflexivity. Qed.
+  Lemma teq_trans X Y Z : teq X Y -> teq Y Z -> teq X Z.
+  Proof. intros A B r s Hr Hs i j k. rewrite (A r s Hr Hs), (B r s Hr Hs). reflexivity. Qed.
+  Lemma m9inv_teq X Y : teq X Y -> teq (m9inv K X) (m9inv K Y).
+  Proof.
+    intros H r s Hr Hs i j k. unfold m9inv, det9, cof.
+    assert (E : forall a b, (a < 3)%nat -> (b < 3)%nat -> X a b i j k = Y a b i j k) by (intros a b Ha Hb; apply H; assumption).
+    assert (N3 : forall q, (q < 3)%nat -> (nx3 q < 3)%nat /\ (pv3 q < 3)%nat) by (intros [|[|[|q]]] Hq; cbn [nx3 pv3]; lia).
+    destruct (N3 r Hr) as (r1 & r2). destruct (N3 s Hs) as (s1 & s2).
+    cbn [nx3 pv3].
+    rewrite !E by (cbn [nx3 pv3]; lia). reflexivity.
+  Qed.
+  Lemma lossy_M1_perm etaf T s : teq (lossy_M1 K Psc etaf (PT T) (PT s)) (PT (lossy_M1 K sc etaf T s)).
+  Proof. unfold lossy_M1. cbn [cn Pscene]. apply m9lin_perm; [apply m9id_perm | apply m9mul_perm; apply teq_refl]. Qed.
+  Lemma lossy_M2_perm etaf T s : teq (lossy_M2 K Psc etaf (PT T) (PT s)) (PT (lossy_M2 K sc etaf T s)).
+  Proof. unfold lossy_M2. cbn [cn Pscene]. apply m9lin_perm; [apply m9id_perm | apply m9mul_perm; apply teq_refl]. Qed.
+  Lemma lossy_A_perm etaf T s : teq (lossy_A K Psc etaf (PT T) (PT s)) (PT (lossy_A K sc etaf T s)).
+  Proof.
+    unfold lossy_A. apply m9mul_perm; [|apply lossy_M2_perm].
+    eapply teq_trans; [apply m9inv_teq, lossy_M1_perm | apply m9inv_perm].
+  Qed.
+  Lemma lossy_B_perm etaf T s : teq (lossy_B K Psc etaf (PT T) (PT s)) (PT (lossy_B K sc etaf T s)).
+  Proof.
+    unfold lossy_B. cbn [cn Pscene]. apply m9lin_perm; [|apply m9id_perm].
+    apply m9mul_perm; [|apply teq_refl]. eapply teq_trans; [apply m9inv_teq, lossy_M1_perm | apply m9inv_perm].
+  Qed.
+
+  Ltac cx := apply c_eq; unfold cadd, csub, cscal; cbn [fst snd]; ring.
+  (* tvec1 reads only entries (r, s) with r, s < 3 *)
+  Lemma tvec1_teq avg X Y v : teq X Y -> veqA K (tvec1 K avg X v) (tvec1 K avg Y v).
+  Proof. intros H i j k. unfold tvec1, trow1; cbn [vx vy vz]. rewrite !H by lia. repeat split. Qed.
+  Lemma tvec1E_perm T v : veqA K (tvec1 K (avgE K Psc) (PT T) (PV v)) (PV (tvec1 K (avgE K sc) T v)).
+  Proof.
+    intros i j k. unfold tvec1, trow1, at_loc; cbn [vx vy vz Nat.eqb]. rewrite !comp_perm, !avgE_perm.
+    unfold Yee_perm.PV, Yee_full_perm.PT, at_loc; cbn [vx vy vz Yee_full_perm.sg Nat.eqb comp]; unfold Yee_perm.P. repeat split; cx.
+  Qed.
+  Lemma tvec1H_perm T v : veqA K (tvec1 K (avgH K Psc) (PT T) (PV v)) (PV (tvec1 K (avgH K sc) T v)).
+  Proof.
+    intros i j k. unfold tvec1, trow1, at_loc; cbn [vx vy vz Nat.eqb]. rewrite !comp_perm, !avgH_perm.
+    unfold Yee_perm.PV, Yee_full_perm.PT, at_loc; cbn [vx vy vz Yee_full_perm.sg Nat.eqb comp]; unfold Yee_perm.P. repeat split; cx.
+  Qed.
+  Lemma stepE_AB_perm A B A' B' J E H : teq A' (PT A) -> teq B' (PT B) ->
+    veqA K (stepE_AB K Psc A' B' (PV J) (PV E) (PV H)) (PV (stepE_AB K sc A B J E H)).
+  Proof.
+    intros HA HB i j k.
+    destruct (tvec1_teq (avgE K Psc) A' (PT A) (PV E) HA i j k) as (a1 & a2 & a3).
+    destruct (tvec1E_perm A E i j k) as (b1 & b2 & b3).
+    destruct (tvec1_teq (avgE K Psc) B' (PT B) (PV (curlH_raw K sc H)) HB i j k) as (c1' & c2' & c3').
+    destruct (tvec1E_perm B (curlH_raw K sc H) i j k) as (d1 & d2 & d3).
+    unfold stepE_AB. change (curlH_raw K Psc (PV H)) with (PV (curlH_raw K sc H)).
+    unfold vmask, vadd, vmap2; cbn [vx vy vz]. rewrite a1, a2, a3, b1, b2, b3, c1', c2', c3', d1, d2, d3. repeat split.
+  Qed.
+  Lemma stepH_AB_perm A B A' B' J E H : teq A' (PT A) -> teq B' (PT B) ->
+    veqA K (stepH_AB K Psc A' B' (PV J) (PV E) (PV H)) (PV (stepH_AB K sc A B J E H)).
+  Proof.
+    intros HA HB i j k.
+    destruct (tvec1_teq (avgH K Psc) A' (PT A) (PV H) HA i j k) as (a1 & a2 & a3).
+    destruct (tvec1H_perm A H i j k) as (b1 & b2 & b3).
+    destruct (tvec1_teq (avgH K Psc) B' (PT B) (PV (curlE_raw K sc E)) HB i j k) as (c1' & c2' & c3').
+    destruct (tvec1H_perm B (curlE_raw K sc E) i j k) as (d1 & d2 & d3).
+    unfold stepH_AB. change (curlE_raw K Psc (PV E)) with (PV (curlE_raw K sc E)).
+    unfold vmask, vadd, vsub, vmap2; cbn [vx vy vz]. rewrite a1, a2, a3, b1, b2, b3, c1', c2', c3', d1, d2, d3. repeat split.
+  Qed.
+  Lemma tierE_perm o J E H : veqA K (tierE K Psc (PTp o) (PV J) (PV E) (PV H)) (PV (tierE K sc o J E H)).
+  Proof.
+    destruct o as [[T s]|]; cbn [PTp tierE].
+    - cbn [eta0 Pscene]. apply stepE_AB_perm; [apply lossy_A_perm | apply lossy_B_perm].
+    - rewrite (stepE_perm K sc). apply veqA_refl'.
+  Qed.
+  Lemma tierH_perm o J E H : veqA K (tierH K Psc (PTp o) (PV J) (PV E) (PV H)) (PV (tierH K sc o J E H)).
+  Proof.
+    destruct o as [[T s]|]; cbn [PTp tierH].
+    - cbn [eta0 Pscene]. apply stepH_AB_perm; [apply lossy_A_perm | apply lossy_B_perm].
+    - rewrite (stepH_perm K sc). apply veqA_refl'.
+  Qed.
+
+  Hypothesis Hpml : pmls K sc = [].
+  Variables e m : option (T9 K * T9 K).
+  Notation itA := (iterL K e m sc). Notation itB := (iterL K (PTp e) (PTp m) Psc).
+  Theorem forward_lossy_perm_n n : forall s s',
+    veqA K (fE s') (PV (fE s)) -> veqA K (fH s') (PV (fH s)) -> tstep s' = tstep s ->
+    veqA K (fE (itB n s')) (PV (fE (itA n s))) /\ veqA K (fH (itB n s')) (PV (fH (itA n s))) /\ tstep (itB n s') = tstep (itA n s).
+  Proof.
+    induction n as [|n IH]; intros s s' HE HH HT; [cbn [iterL]; split; [exact HE | split; [exact HH | exact HT]]|].
+    cbn [iterL].
+    destruct (forward_lossy_steps K sc Hpml e m s) as (he & hh & t).
+    destruct (forward_lossy_steps K Psc eq_refl (PTp e) (PTp m) s') as (he' & hh' & t').
+    assert (A : veqA K (fE (forward_lossy K Psc (PTp e) (PTp m) s')) (PV (fE (forward_lossy K sc e m s)))).
+    { rewrite he', he, HT. eapply veqA_trans'; [|apply tierE_perm].
+      apply (tierE_ext K Psc); [cbn [injE Pscene]; apply veqA_refl' | exact HE | exact HH]. }
+    apply IH; [exact A| |rewrite t', t, HT; reflexivity].
+    rewrite hh', hh, HT. eapply veqA_trans'; [|apply tierH_perm].
+    apply (tierH_ext K Psc); [cbn [injH Pscene]; apply veqA_refl' | exact A | exact HH].
+  Qed.
+End LossyPerm.
